@@ -11,7 +11,7 @@ from sa.flow import subterms
 from sa.model import AnalysisError, norm, parent, walk_no_nested
 from sa.xsd import CType, Schema, included, show_re, symbols
 
-from .common import atomic_deps, callers_of, commands, include_rules, lazy_iterable, prov, reach_from
+from .common import neg_zero_slice_rule, atomic_deps, callers_of, commands, include_rules, lazy_iterable, prov, reach_from
 from .xmlcommon import documents, dyn_tag_attr, format_domain, ordered_expr, resolve_local, sorted_by_attr, sorted_source, writers
 
 
@@ -178,6 +178,7 @@ def child_elems(items, guards):
 def run(report, p):
     # well-formedness comes first: a value written around the escaping builder makes the document invalid before any content model is looked at
     # (shared rule, evaluated before the templates are extracted so that its verdict stands even if the template of such a writer cannot be built)
+    neg_zero_slice_rule(report, p, prov(p), 'R11.9', [c_.qual for c_ in commands(p).values()], 'any command')
     include_rules(report, p, 'c10', ['R10.2'], 'every variable value is escaped by the XML builder: a chain or manifest with a raw `&` or `<` from a file or folder name is not well-formed, let alone valid')
     em, mdoc, cdoc, raw = documents(p)
     domain = format_domain(p)
